@@ -185,6 +185,22 @@ theorem flattenUseTrees_idem (g : Granularity) (its : List Item)
     flattenUseTrees g (flattenUseTrees g its) = flattenUseTrees g its :=
   RF.Lemmas.Idem.flattenUseTrees_idem g its hwf
 
+/-- What makes the second application the identity: in the output of `flatten_use_trees` no import
+`is_repeated_by` an earlier one (every list, no hypothesis) … -/
+theorem flattenUseTrees_no_repeat (g : Granularity) (its : List Item) :
+    (flattenUseTrees g its).Pairwise (fun a b => isRepeatedBy a b = false) :=
+  dedupItems_pairwise _ [] List.Pairwise.nil
+
+/-- … and the loop of `flatten_use_trees` returns such a list as it is. -/
+theorem dedup_fixed (l : List Item) (h : l.Pairwise (fun a b => isRepeatedBy a b = false)) :
+    dedupItems l [] = l := by
+  have h' : ([] ++ l).Pairwise NoRep := by rw [List.nil_append]; exact h
+  simpa using dedupItems_of_pairwise l [] h'
+
+example : [use [i 'a'], (⟨.mk [i 'a'], some "pub".toList, none, false⟩ : Item),
+    (⟨.mk [i 'a'], some [], some (n 'x'), false⟩ : Item)].Pairwise
+      (fun a b => isRepeatedBy a b = false) := by decide
+
 /-! ## (i) `normalize_use_trees_with_granularity` -/
 
 /-- `Preserve`: the identity, so trivially idempotent (every `cmp`, every run). -/
